@@ -20,6 +20,7 @@ Inductive perror :=
 | PE_NoTerm | PE_Stream | PE_Code | PE_StreamRange | PE_Function
 | PE_ExpectLt | PE_ItemType | PE_ItemSize | PE_MinMax
 | PE_ListEof | PE_ListChild
+| PE_Depth           (* list nesting beyond secs2.MaxListDepth *)
 | PE_Ascii (e : perr)
 | PE_JQuote | PE_JUnclosed | PE_WQuote | PE_WUnclosed
 | PE_Bool | PE_Binary | PE_BinaryRange | PE_Float | PE_Int | PE_Uint
@@ -33,6 +34,9 @@ Inductive pres (A : Type) :=
 | PErr (e : perror) (off : Z)
 | PFuel.
 Arguments POk {A}. Arguments PErr {A}. Arguments PFuel {A}.
+
+(** secs2.MaxListDepth (bridge to the generated constant: Gen/BridgeStrictParser.v) *)
+Definition max_list_depth : Z := 64.
 
 Inductive itype := TList | TAscii | TJis8 | TLocal | TBoolean | TBinary
                  | TFloat (w : fwidth) | TInt (w : width) | TUint (w : width).
@@ -425,10 +429,17 @@ Section Parser.
         else PErr PE_ListChild (pos st)
     end.
 
-  (** the type switch of parseItem, over a parser for list children *)
-  Definition parse_body (pitem : pst -> pres item) (ty : itype) (st : pst) : pres item :=
+  (** the type switch of parseItem, over a parser for list children. [d] is the value of the
+      parser's [depth] field on entry: the number of parseList frames active in the message being
+      parsed. The code keeps it in the Parser (reset to 0 by parseMsg, ++ on entry of parseList,
+      -- when the list's closing bracket is consumed); every error aborts the whole parse, so the
+      field always equals the number of enclosing lists and is threaded here as an argument.
+      parseList: depth++; if depth > secs2.MaxListDepth, a ParseError at the current position. *)
+  Definition parse_body (pitem : Z -> pst -> pres item) (ty : itype) (d : Z) (st : pst) : pres item :=
     match ty with
-    | TList => parse_list_loop pitem (S (length (data st))) st []
+    | TList =>
+        if d + 1 >? max_list_depth then PErr PE_Depth (pos st)
+        else parse_list_loop (pitem (d + 1)) (S (length (data st))) st []
     | TAscii => parse_ascii st
     | TJis8 => parse_quoted IJis8 PE_JQuote PE_JUnclosed st
     | TLocal => parse_quoted ILocal PE_WQuote PE_WUnclosed st
@@ -440,7 +451,7 @@ Section Parser.
     end.
 
   (** parseItem *)
-  Fixpoint parse_item (fuel : nat) (st : pst) : pres item :=
+  Fixpoint parse_item (fuel : nat) (d : Z) (st : pst) : pres item :=
     match fuel with
     | O => PFuel
     | S fuel' =>
@@ -453,7 +464,7 @@ Section Parser.
             | PErr e o => PErr e o
             | PFuel => PFuel
             | POk _ st =>
-                match parse_body (parse_item fuel') ty (skip_comment st) with
+                match parse_body (parse_item fuel') ty d (skip_comment st) with
                 | POk x st => POk x (skip_comment st)
                 | e => e
                 end
@@ -465,7 +476,7 @@ Section Parser.
   Definition parse_text (fuel : nat) (st : pst) : pres item :=
     let st := skip_comment st in
     let '(st, ch) := peek_ns st in
-    if ch =? c_dot then POk IEmpty st else parse_item fuel st.
+    if ch =? c_dot then POk IEmpty st else parse_item fuel 0 st.
 
   (** parseMsg(false): None = no more messages *)
   Definition parse_msg (fuel : nat) (st : pst) : pres (option msg) :=
